@@ -754,24 +754,51 @@ func (r *vC01Rig) observeReady(n *vC01Node, idx uint64) {
 
 // observeOffline records what the real OfflineState returns for node n's data: the newest complete snapshot of n's store
 // is copied into a data folder of its own (hashicorp's file snapshot store, as consensus/raft opens it) and OfflineState
-// is called on that folder. Atomic with respect to every FSM call. The model knows the snapshots a replica persisted
-// itself, not the ones it was sent (InstallSnapshot also writes the leader's snapshot into the follower's store): when
-// the newest snapshot of the store is not the last one this replica persisted, nothing is recorded ("foreign").
+// is called on that folder. Atomic with respect to every FSM call. The store holds the snapshots the replica persisted
+// and the ones it was sent (InstallSnapshot writes the leader's snapshot into the follower's store); the model knows both.
 func (r *vC01Rig) observeOffline(n *vC01Node) string {
 	r.mu.Lock()
 	defer r.mu.Unlock()
 	meta, data := n.snaps.newest()
-	var last *vC01Ev
+	// what the trace says n's store holds: the snapshots n persisted and the ones installed on it (a restore of a snapshot that
+	// is not yet in the store), the newest being the one with the highest index, the later one among equals. Between the close
+	// of an installed snapshot's sink and the restore event the store is ahead of the trace: nothing is recorded then.
+	type stored struct {
+		idx  uint64
+		hash string
+	}
+	var store []stored
 	for i := range r.trace {
-		if r.trace[i].Kind == "persist" && r.trace[i].Node == n.idx {
-			last = &r.trace[i]
+		e := &r.trace[i]
+		if e.Node != n.idx {
+			continue
+		}
+		switch e.Kind {
+		case "persist":
+			store = append(store, stored{e.Idx, e.Hash})
+		case "restore":
+			have := false
+			for _, x := range store {
+				if x.idx == e.Idx && x.hash == e.Hash {
+					have = true
+				}
+			}
+			if !have {
+				store = append(store, stored{e.Idx, e.Hash})
+			}
+		}
+	}
+	var last *stored
+	for i := range store {
+		if last == nil || store[i].idx >= last.idx {
+			last = &store[i]
 		}
 	}
 	if (meta == nil) != (last == nil) {
-		return "foreign"
+		return "store_ahead"
 	}
-	if meta != nil && (meta.Index != last.Idx || vC01Hash(data) != last.Hash) {
-		return "foreign"
+	if meta != nil && (meta.Index != last.idx || vC01Hash(data) != last.hash) {
+		return "store_ahead"
 	}
 	dir, err := ioutil.TempDir("", "vc01-offline")
 	if err != nil {
